@@ -269,6 +269,26 @@ def run_single(key):
                            what=f'{fam} trainer {name}: fit(c*y) vs fit(y)')
         if bad:
             return viol(bad + f' (gains {gains.tolist()})')
+    # the same with per-observation weights (saliency argument of the single trainers)
+    sal = 0.25 + A.rng(seed, 'c04sal', fam, D, lead).uniform(size=lead + (N,))
+    kw = dict(iterations=3) if fam == 'cacg' else {}
+    tr = {'cacg': d.ComplexAngularCentralGaussianTrainer, 'watson': d.ComplexWatsonTrainer,
+          'bingham': d.ComplexBinghamTrainer, 'vmf': d.VonMisesFisherTrainer}[fam]
+    try:
+        s1 = tr().fit(y, saliency=sal, **kw)
+    except Exception as e:  # noqa
+        s1 = None
+    if s1 is not None:
+        try:
+            s2 = tr().fit(y2, saliency=sal, **kw)
+        except Exception as e:  # noqa
+            return viol(f'{fam} trainer: fit(c*y, saliency) raised {e!r}')
+        a_, b_ = fld(s1), fld(s2)
+        for name in a_:
+            bad = tol.mismatch(b_[name], a_[name], rt * (100 if name in ('mode', 'mean') else 1),
+                               what=f'{fam} trainer with saliency, {name}: fit(c*y) vs fit(y)')
+            if bad:
+                return viol(bad + f' (gains {gains.tolist()})')
     # log_pdf: cACG and vMF normalise themselves (any gain); Watson/Bingham: unit-modulus gains
     if fam in ('cacg', 'vmf'):
         l1, l2 = m1.log_pdf(y), m1.log_pdf(y2)
